@@ -621,6 +621,11 @@ def plan_of_name(name):
     return out
 
 
+def head_class(gt, toks):
+    h = toks[0] if toks else ''
+    return h if h in CONS[gt] else 'format' if h in FMTS[gt] else 'file'
+
+
 def cmdline(gt, toks):
     return ['-q'] + CLI_PREFIX[gt] + list(toks)
 
@@ -652,21 +657,28 @@ def run_graphspec(ctx):
         err = r['err'].decode(errors='replace')
         return 'Traceback (most recent call last)' in err, err.strip().split('\n')[-1][:200] if err.strip() else '', r['rc']
 
+    confirmed = {}      # class of failing input -> result of the child process (one child per class, at most 12 children)
+
+    def confirm_once(key, gt, toks):
+        if key not in confirmed:
+            confirmed[key] = confirm(gt, toks) if len(confirmed) < 12 else (False, 'not run (enough child processes for this check)', None)
+        return confirmed[key]
+
     def report_crash(stream, gt, toks, exc, msg):
-        tb, last, rc = confirm(gt, toks)
+        tb, last, rc = confirm_once(('crash', gt, head_class(gt, toks), exc), gt, toks)
         ctx.violation('counterexample',
                       'graph argument %r (%s graph) ends in %s: %s%s' % (toks, gt, exc, msg, ' -- confirmed as a traceback of the cnfgen process' if tb else ''),
                       dict(input=dict(tool='cnfgen', argv=cmdline(gt, toks), graphtype=gt, tokens=toks), exception=exc, message=msg,
                            child_traceback=tb, child_stderr_last=last, child_exit=rc, stream=stream),
-                      True, site='graphspec-crash', cls='%s:%s:%s' % (gt, toks[0] if toks else '', exc))
+                      True, site='graphspec-crash', cls='%s:%s:%s' % (gt, head_class(gt, toks), exc))
 
     def report_diff(stream, gt, toks, what, impl, model, theorem):
         ctx.disagreements_checked += 1
-        tb, last, rc = confirm(gt, toks) if toks else (False, '', None)
+        tb, last, rc = confirm_once((stream, str(what).split(':')[0], gt, head_class(gt, toks)), gt, toks) if toks else (False, '', None)
         if tb:
             ctx.violation('counterexample', 'graph argument %r (%s graph): %s; the command line ends in a traceback: %s' % (toks, gt, what, last),
                           dict(input=dict(tool='cnfgen', argv=cmdline(gt, toks), graphtype=gt, tokens=toks), implementation=impl, model=model,
-                               child_stderr_last=last, child_exit=rc, stream=stream), True, site='graphspec-crash', cls='%s:%s:traceback' % (gt, toks[0] if toks else ''))
+                               child_stderr_last=last, child_exit=rc, stream=stream), True, site='graphspec-crash', cls='%s:%s:traceback' % (gt, head_class(gt, toks)))
         else:
             ctx.violation('correspondence', 'graph argument %r (%s graph): %s (coq/GraphSpec.v no longer describes the code; theorem %s does not cover it)' % (toks, gt, what, theorem),
                           dict(input=dict(tool='cnfgen', argv=cmdline(gt, toks), graphtype=gt, tokens=toks), implementation=impl, model=model,
